@@ -104,8 +104,26 @@ CHECKS.update({
          "reachability. Correspondence bit-exact on both diagnostic vectors; induced-chain oracle on guarded families.",
     design="5/C14", technique="Coq proof (fold invariants of the reward step) + bit-exact differential correspondence + induced-chain oracle"),
 })
-PENDING = {"C08": "helper still building the Roborta bisimulation (coq/Spec/Roborta.v); not claimed until its check passes",
-           "C11": "helper still building the board-generator model (coq/Model/Board.v); not claimed until its check passes"}
+CHECKS.update({
+ "C08": dict(
+    text="Theorems (any number instance, all lengths/widths >= 1, all boards, symbolic probabilities): for each of the three emitted games the "
+         "index map group*L*W + i*W + j is a bisimulation between the Roborta rule game (lights, robot moves with wrap-around, loose tiles, "
+         "robot/light failures) from Light(0,0) and the generated game from state 0 - equal owner, reward, finality, and transition lists equal "
+         "label by label and probability by probability; the original one-column case order is refuted (D3). Correspondence: the model's three "
+         "games vs the file written by write_robots and read back by the solver's reader, every board up to 3 (thorough 4) tiles; an independent "
+         "Python rule game is checked bisimilar by partition refinement.",
+    design="5/C08", technique="Coq proof (index lemmas for nested-loop lists + bisimulation) + differential correspondence on generated files"),
+ "C11": dict(
+    text="Theorems (exact rationals; structural part for any instance): every generated game has the right lengths, passes check_game and "
+         "init_states, every state has a transition into range, probabilistic weights are > 0 and sum to 1, the winning state is the only final "
+         "state and absorbing, the losing state absorbing. Correspondence on files from write_robots, the CLI and the manual entry point (exactly "
+         "the keys game_a/b/c; eval agrees with ast.literal_eval). The last clause ('solved or reported unsolvable') is false for some boards: "
+         "known finding K4 (non-terminating reward loop), asserted only under an input-side termination guard.",
+    design="5/C11", technique="Coq proof (layout/validation/probability lemmas over nested-loop builders) + differential correspondence via the CLI"),
+})
+PENDING = {}
+
+
 def main():
     props = [json.loads(l) for l in open(os.path.join(VERIF, "properties.jsonl"))]
     checks, na = [], []
